@@ -21,8 +21,8 @@
 (* caller put in) and RefDens, the readings of a probe under it.             *)
 EXTENDS Integers, Sequences, FiniteSets, TLC, Json
 
-EditKeys == {"pc", "ft", "foo", "kfoo", "quux", "parsec", "kiloparsec", "kpc", "kft"}   \* keys a call may put in the table
-DerivedKeys == <<"kpc", "Mpc", "kft", "kfoo", "Mfoo">>     \* keys _lookup_unit_symbol may write back
+EditKeys == {"pc", "ft", "foo", "kfoo", "quux", "parsec", "kiloparsec", "kpc", "kft", "pccm", "a", "mcm"}   \* keys a call may put in the table
+DerivedKeys == <<"kpc", "Mpc", "kft", "kfoo", "Mfoo", "Mpccm", "ka", "kmcm">>     \* keys _lookup_unit_symbol may write back
 DerivedSet == {DerivedKeys[i] : i \in DOMAIN DerivedKeys}
 AllKeys == EditKeys \cup DerivedSet
 \* probe strings: s = spelling, e/b = its reading 10^e x unit b, canon = the symbol the tokenizer hands to the table
@@ -40,12 +40,22 @@ ProbeSeq == <<
   [s |-> "foo",        e |-> 0, b |-> "foo", canon |-> "foo",  us |-> FALSE],
   [s |-> "kfoo",       e |-> 3, b |-> "foo", canon |-> "kfoo", us |-> FALSE],
   [s |-> "Mfoo",       e |-> 6, b |-> "foo", canon |-> "Mfoo", us |-> FALSE],
-  [s |-> "quux",       e |-> 0, b |-> "quux", canon |-> "quux", us |-> FALSE]>>
+  [s |-> "quux",       e |-> 0, b |-> "quux", canon |-> "quux", us |-> FALSE],
+  \* user symbols whose NAMES meet the special cases of the resolver: pccm ends in "cm" (the comoving-unit branch of
+  \* _lookup_unit_symbol; Mpccm shares its head with the documented Mpc), a is a one-letter name that is also a prefix letter
+  [s |-> "pccm",       e |-> 0, b |-> "pccm", canon |-> "pccm", us |-> FALSE],
+  [s |-> "Mpccm",      e |-> 6, b |-> "pccm", canon |-> "Mpccm", us |-> FALSE],
+  [s |-> "a",          e |-> 0, b |-> "a",    canon |-> "a",    us |-> FALSE],
+  [s |-> "ka",         e |-> 3, b |-> "a",    canon |-> "ka",   us |-> FALSE],
+  \* mcm: ends in "cm" too; kmcm shares its head with the documented km, which is not a probe: the sweep watches it
+  [s |-> "mcm",        e |-> 0, b |-> "mcm",  canon |-> "mcm",  us |-> FALSE],
+  [s |-> "kmcm",       e |-> 3, b |-> "mcm",  canon |-> "kmcm", us |-> FALSE]>>
 ProbeNo(s) == CHOOSE p \in DOMAIN ProbeSeq : ProbeSeq[p].s = s
 PIdx == DOMAIN ProbeSeq
 \* derived key -> its split <<e, base>> (first character is the prefix)
 SplitOf(c) == CASE c = "kpc" -> <<3, "pc">> [] c = "Mpc" -> <<6, "pc">> [] c = "kft" -> <<3, "ft">>
-                [] c = "kfoo" -> <<3, "foo">> [] c = "Mfoo" -> <<6, "foo">> [] OTHER -> <<0, "">>
+                [] c = "kfoo" -> <<3, "foo">> [] c = "Mfoo" -> <<6, "foo">>
+                [] c = "Mpccm" -> <<6, "pccm">> [] c = "ka" -> <<3, "a">> [] c = "kmcm" -> <<3, "mcm">> [] OTHER -> <<0, "">>
 
 Absent == [m |-> "", e |-> 0, pfx |-> FALSE]
 Row(m, e, pfx) == [m |-> m, e |-> e, pfx |-> pfx]
@@ -159,8 +169,17 @@ HasSymbolReading(U, sym) == \/ (sym \in EditKeys /\ Present(U[sym]))
 C14_DefineGuard(U, sym, accepted) == HasSymbolReading(U, sym) => ~accepted
 \* which memo layer explains a stale answer: a derived prefixed row written before the base symbol was edited
 \* (the defect C12 records: derived rows survive add/modify/remove of their base symbol), or none
-Layer(U, p, rowsBefore) == LET c == ProbeSeq[p].canon IN
+LayerModel(U, p, rowsBefore) == LET c == ProbeSeq[p].canon IN
                            IF (\E i \in DOMAIN DerivedKeys : DerivedKeys[i] = c /\ rowsBefore[i]) /\ ~(c \in EditKeys /\ Present(U[c]))
                            THEN "lutrow" ELSE "fresh"
+\* on observations the layer is "lutrow" only for a derived key whose row was already in the table when its base symbol
+\* was edited and has been there ever since (S = the set of such keys, maintained by the trace specification); a wrong
+\* row under a key whose base symbol was never edited is not that defect
+Layer(S, p) == IF ProbeSeq[p].canon \in S THEN "lutrow" ELSE "fresh"
+StaleAfter(S, e, rowsBefore, rowsAfter) ==
+  LET S1 == IF e.op \in {"add", "remove", "modify", "define"} /\ e.obs.k = "ok"
+            THEN S \cup {DerivedKeys[i] : i \in {j \in DOMAIN DerivedKeys : rowsBefore[j] /\ SplitOf(DerivedKeys[j])[2] = e.k}}
+            ELSE S IN
+  {c \in S1 : \E i \in DOMAIN DerivedKeys : DerivedKeys[i] = c /\ rowsAfter[i]} \ (IF e.op \in {"add", "define"} /\ e.obs.k = "ok" THEN {e.k} ELSE {})
 ModelRows(L) == [i \in DOMAIN DerivedKeys |-> Present(L[DerivedKeys[i]])]
 =============================================================================
